@@ -87,7 +87,9 @@ MZero == [cfg |-> [reliable |-> FALSE], pend |-> {}, seen |-> {}, tx |-> <<>>,
           prev |-> [tx |-> <<>>], alg |-> "none", rej |-> {}, amb |-> {},
           est |-> [srtt |-> 0, rttvar |-> 0, rto |-> 0, first |-> TRUE, unk |-> FALSE],
           lastReq |-> -1,
-          stale |-> 0, reported |-> {}, lt |-> [state |-> "First"]]
+          stale |-> 0, reported |-> {},
+          lt |-> [state |-> "First", params |-> FALSE, realm |-> "", nonce |-> "",
+                  algsPresent |-> FALSE, algs |-> <<>>, pa |-> FALSE, ua |-> FALSE]]
 
 MInit(o) == [MZero EXCEPT !.cfg = o.cfg, !.prev = o.snap,
                           !.alg = IF o.cfg.mech = "st" THEN o.cfg.preset ELSE "none",
@@ -192,6 +194,175 @@ EstAfter(m, o) ==
               ELSE [m.est EXCEPT !.unk = TRUE]   \* zero-length response time: excluded by C15
     ELSE m.est
 
+(***************************************************************************)
+(* Long-term credentials (RFC 8489 section 9.2): what the monitor knows.   *)
+(* The monitor's view of the credential state is driven by OBSERVED        *)
+(* outcomes: a challenge counts once the client answered it with `Retry`,  *)
+(* a transaction counts as completed once a response was delivered.        *)
+(***************************************************************************)
+Supported == {1, 2}    \* MD5, SHA-256 (RFC 8489 18.5)
+HasRetry(o) == \E i \in DOMAIN o.ev : o.ev[i].k = "retry"
+HasRecvd(o) == \E i \in DOMAIN o.ev : o.ev[i].k = "recvd"
+LtAfter(m, o) ==
+    IF m.cfg.mech # "lt" \/ o.op # "recv" \/ o.res # "ok" THEN m.lt
+    ELSE LET d == o.arg.d IN
+         IF HasRetry(o) /\ d.lt.code = 401
+         THEN [state |-> "RetryUnauth", params |-> TRUE, realm |-> d.lt.realm, nonce |-> d.lt.nonce,
+               algsPresent |-> d.lt.algs_present, algs |-> d.lt.algs, pa |-> d.lt.pa, ua |-> d.lt.ua]
+         ELSE IF HasRetry(o) /\ d.lt.code = 438
+         THEN [m.lt EXCEPT !.state = "RetryStale", !.nonce = d.lt.nonce]
+         ELSE IF HasRecvd(o) /\ IsResponse(d) /\ m.lt.params
+         THEN [m.lt EXCEPT !.state = "Subsequent"]
+         ELSE m.lt
+
+LtChoices(lt) == IF lt.algsPresent THEN Range(lt.algs) \cap Supported ELSE {1}
+LtKeyNames(lt) == {<<lt.realm, a>> : a \in LtChoices(lt)}
+\* "<realm>/<alg>" strings as the observer writes them
+KeyStr(realm, a) == realm \o "/" \o (IF a = 1 THEN "1" ELSE IF a = 2 THEN "2" ELSE "x")
+VerifiesUnder(keys, realm, a) == \E i \in DOMAIN keys : keys[i] = KeyStr(realm, a)
+
+CredTypes == {6, 30, 20, 21, 29, 32770}     \* USERNAME USERHASH REALM NONCE PWD-ALGORITHM PWD-ALGORITHMS
+IntegrityTypes == {8, 28}
+
+\* RFC 8489 9.2.4: would a server that sent the challenge the client accepted (realm, current
+\* nonce, offered algorithms, cookie bits) accept request descriptor q ?  "" = accepted.
+RefServer(lt, q) ==
+    LET hasInt == q.mi # "absent" \/ q.sha # "absent"
+        keyAlg == IF q.lt.alg # -1 THEN q.lt.alg ELSE 1
+        keys == IF q.sha # "absent" THEN q.lt.sha_keys ELSE q.lt.mi_keys
+    IN IF ~hasInt THEN "401:no-integrity"
+       ELSE IF q.lt.user \notin {"name", "hash"} \/ ~q.lt.realm_present \/ ~q.lt.nonce_present
+            THEN "400:missing-user-realm-nonce"
+       ELSE IF lt.pa /\ ~(\/ (~q.lt.algs_present /\ q.lt.alg = -1)
+                           \/ (q.lt.algs_present /\ q.lt.alg # -1 /\ q.lt.algs = lt.algs
+                               /\ q.lt.alg \in Range(lt.algs)))
+            THEN "400:password-algorithms-mismatch"
+       ELSE IF q.lt.nonce # lt.nonce THEN "438:stale-nonce"
+       ELSE IF q.lt.realm # lt.realm THEN "401:unknown-realm"
+       ELSE IF ~VerifiesUnder(keys, lt.realm, keyAlg) THEN "401:integrity-mismatch"
+       ELSE ""
+
+\* reasons why an emitted request violates C08 (set of strings; K1 / K2 are the two named
+\* deviations of the code base from RFC 8489 that are pinned by its own tests)
+LtRequestFaults(lt, q) ==
+    IF lt.state = "First"
+    THEN IF Range(q.types) \cap (CredTypes \cup IntegrityTypes) # {} THEN {"first-request-has-credentials"}
+         ELSE {}
+    ELSE LET hasInt == q.mi # "absent" \/ q.sha # "absent"
+             noAlgs == ~q.lt.algs_present /\ q.lt.alg = -1
+             keyAlg == IF q.lt.alg # -1 THEN q.lt.alg ELSE 1
+             keys == IF q.sha # "absent" THEN q.lt.sha_keys ELSE q.lt.mi_keys
+             rs == RefServer(lt, q)
+         IN (IF (lt.ua /\ q.lt.user # "hash") \/ (~lt.ua /\ q.lt.user # "name") THEN {"user"} ELSE {})
+            \cup (IF q.lt.realm # lt.realm \/ ~q.lt.realm_present THEN {"realm"} ELSE {})
+            \cup (IF q.lt.nonce # lt.nonce \/ ~q.lt.nonce_present THEN {"nonce-not-most-recent"} ELSE {})
+            \cup (IF lt.algsPresent
+                  THEN IF noAlgs /\ lt.state = "RetryStale" THEN {"K2:password-algorithms-omitted-after-438"}
+                       ELSE IF q.lt.algs_present /\ q.lt.algs = lt.algs /\ q.lt.alg \in LtChoices(lt)
+                       THEN {} ELSE {"password-algorithms"}
+                  ELSE IF noAlgs THEN {} ELSE {"password-algorithms-unexpected"})
+            \cup (IF ~hasInt
+                  THEN IF lt.state = "RetryUnauth" THEN {"K1:no-integrity-after-401"}
+                       ELSE {"missing-integrity"}
+                  ELSE (IF lt.algsPresent /\ (q.sha = "absent" \/ q.mi # "absent") THEN {"integrity-kind"}
+                        ELSE IF ~lt.algsPresent /\ (q.mi = "absent" \/ q.sha # "absent") THEN {"integrity-kind"}
+                        ELSE {})
+                       \* the key is derived with the algorithm the request names; a request that names
+                       \* none although algorithms were offered (deviation K2) is judged against the
+                       \* algorithms the client may have chosen
+                       \cup (IF \/ VerifiesUnder(keys, lt.realm, keyAlg)
+                                \/ (noAlgs /\ lt.algsPresent
+                                    /\ \E a \in LtChoices(lt) : VerifiesUnder(keys, lt.realm, a))
+                             THEN {} ELSE {"integrity-key"}))
+            \cup (IF rs = "" \/ (rs = "401:no-integrity" /\ lt.state = "RetryUnauth")
+                     \/ (rs = "401:integrity-mismatch" /\ lt.state = "RetryStale" /\ noAlgs
+                         /\ lt.algsPresent)
+                  THEN {} ELSE {"refserver-rejects-" \o rs})
+IsKnownDeviation(f) == f \in {"K1:no-integrity-after-401", "K2:password-algorithms-omitted-after-438"}
+
+\* a 401 challenge every RFC 8489 client must answer with a retry
+CleanChallenge(m, d) ==
+    /\ IsResponse(d) /\ d.cls = "error" /\ Reaches(m, d) /\ d.lt.code = 401
+    /\ d.lt.realm_present /\ d.lt.nonce_present /\ ~d.lt.dup
+    /\ d.mi = "absent" /\ d.sha = "absent"
+    /\ IF d.lt.algs_present THEN Range(d.lt.algs) \cap Supported # {} /\ d.lt.pa
+       ELSE ~d.lt.pa
+
+WhyC08(m, o) ==
+    IF o.res = "panic" THEN {"panic"}
+    ELSE IF m.cfg.mech # "lt" THEN {}
+    ELSE
+    (IF o.op = "recv"
+     THEN LET d == o.arg.d
+              kind == IF m.lt.algsPresent THEN "sha" ELSE "mi"
+              keys == IF m.lt.algsPresent THEN d.lt.sha_keys ELSE d.lt.mi_keys
+              authentic == m.lt.params /\ \E a \in LtChoices(m.lt) : VerifiesUnder(keys, m.lt.realm, a)
+          IN (IF HasRecvd(o) /\ ~(IsResponse(d) /\ authentic) THEN {"delivered-unauthenticated"} ELSE {})
+             \cup (IF d.ok /\ d.cls = "indication" /\ ~(o.res # "ok" /\ o.ev = <<>>)
+                   THEN {"indication-not-refused"} ELSE {})
+             \cup (IF CleanChallenge(m, d) /\ ~(o.res = "ok" /\ Len(o.ev) = 1 /\ o.ev[1].k = "retry"
+                                                /\ o.ev[1].id = d.id)
+                   THEN {"challenge-not-answered-with-retry"} ELSE {})
+             \cup (IF HasRetry(o) /\ ~(/\ IsResponse(d) /\ d.lt.code \in {401, 438} /\ d.lt.nonce_present
+                                       /\ (d.lt.code = 401 => d.lt.realm_present)
+                                       /\ (d.lt.code = 438 => m.lt.params))
+                   THEN {"retry-without-challenge"} ELSE {})
+     ELSE {})
+    \cup UNION {LtRequestFaults(m.lt, o.ev[i].d) : i \in {j \in DOMAIN o.ev : o.ev[j].k = "out" /\ o.op = "send"}}
+    \cup (IF \E i \in DOMAIN o.ev : o.ev[i].k = "out" /\ o.ev[i].d.leak THEN {"password-on-the-wire"} ELSE {})
+    \cup (IF o.op = "indic" /\ o.res = "ok" THEN {"indication-sent-with-long-term-credentials"} ELSE {})
+OkC08(m, o) == \A f \in WhyC08(m, o) : IsKnownDeviation(f)
+
+(***************************************************************************)
+(* C13  Every emitted packet is well formed, retransmissions identical     *)
+(***************************************************************************)
+RECURSIVE Dedup(_, _)
+Dedup(s, seen) == IF s = <<>> THEN <<>>
+                  ELSE IF Head(s) \in seen THEN Dedup(Tail(s), seen)
+                  ELSE <<Head(s)>> \o Dedup(Tail(s), seen \cup {Head(s)})
+TailTypes == {8, 28, 32808}
+\* types the mechanism strips from the application's list
+Stripped(mech) == IF mech = "st" THEN {6, 8, 28}
+                  ELSE IF mech = "lt" THEN CredTypes \cup IntegrityTypes ELSE {}
+AppPart(mech, app) == SelectSeq(Dedup(app, {}), LAMBDA t : t \notin TailTypes /\ t \notin Stripped(mech))
+IsPrefixOf(p, s) == Len(p) <= Len(s) /\ SubSeq(s, 1, Len(p)) = p
+OkC13(m, o) ==
+    /\ o.res # "panic"
+    /\ (o.op \in {"send", "indic"} /\ o.res = "ok") =>
+         /\ Len(OutEvs(o)) = 1
+         /\ LET q == OutEvs(o)[1].d
+                app == o.arg.app_types
+                ap == AppPart(m.cfg.mech, app)
+                rest == SubSeq(q.types, Len(ap) + 1, Len(q.types))
+                creds == SelectSeq(rest, LAMBDA t : t \notin TailTypes)
+                tail == SelectSeq(rest, LAMBDA t : t \in TailTypes)
+                keepInt(t) == m.cfg.mech = "none" /\ \E i \in DOMAIN app : app[i] = t
+            IN /\ q.ok /\ q.size_ok
+               /\ q.cls = (IF o.op = "send" THEN "request" ELSE "indication")
+               /\ q.method = o.arg.method
+               /\ q.id = o.id /\ q.id \notin m.seen          \* fresh transaction id
+               /\ IsPrefixOf(ap, q.types)                     \* application attributes first
+               \* then credential attributes only, no duplicates, then MI? SHA? FP? in that order
+               /\ rest = creds \o tail
+               /\ \A i \in DOMAIN creds : creds[i] \in CredTypes
+               /\ \A i, j \in DOMAIN rest : i # j => rest[i] # rest[j]
+               /\ \A i, j \in DOMAIN tail : i < j =>
+                      (tail[i] = 8 \/ (tail[i] = 28 /\ tail[j] = 32808))
+               /\ (m.cfg.mech = "none") => (creds = <<>> /\ \A t \in {8, 28} : (t \in Range(tail)) <=> keepInt(t))
+               /\ (m.cfg.mech = "st") => creds = <<6>>
+               /\ (32808 \in Range(tail)) <=> (m.cfg.fp \/ \E i \in DOMAIN app : app[i] = 32808)
+               \* each verifying under the configured credentials
+               /\ q.fp # "invalid"
+               /\ (m.cfg.mech = "st") => (q.mi # "invalid" /\ q.sha # "invalid")
+               /\ (m.cfg.mech = "lt" /\ m.lt.state # "First") =>
+                      /\ {6, 30} \cap Range(creds) # {} /\ {20, 21} \subseteq Range(creds)
+                      /\ (q.mi # "absent" => Len(q.lt.mi_keys) > 0)
+                      /\ (q.sha # "absent" => Len(q.lt.sha_keys) > 0)
+    \* every retransmission is byte-for-byte the packet first sent
+    /\ (o.op = "timeout") => \A i \in DOMAIN o.ev :
+          (o.ev[i].k = "out" /\ o.ev[i].id \in m.pend) =>
+               (o.ev[i].same /\ o.ev[i].h = m.tx[o.ev[i].id].h)
+
 Step(m, o) ==
     [m EXCEPT !.pend = PendAfter(m, o),
               !.seen = m.seen \cup NewIds(o)
@@ -202,7 +373,8 @@ Step(m, o) ==
               !.rej = RejAfter(m, o),
               !.amb = AmbAfter(m, o),
               !.est = EstAfter(m, o),
-              !.lastReq = IF SendOk(o) /\ ~m.cfg.reliable THEN o.t ELSE m.lastReq]
+              !.lastReq = IF SendOk(o) /\ ~m.cfg.reliable THEN o.t ELSE m.lastReq,
+              !.lt = LtAfter(m, o)]
 
 (***************************************************************************)
 (* C05  Each request gets at most one final outcome and then falls silent  *)
@@ -361,14 +533,16 @@ OkC15(m, o) ==
 (***************************************************************************)
 (* All client monitors                                                     *)
 (***************************************************************************)
-Props == {"C05", "C06", "C07", "C10", "C11", "C12", "C15", "C17"}
+Props == {"C05", "C06", "C07", "C08", "C10", "C11", "C12", "C13", "C15", "C17"}
 Holds(p, m, o) ==
     CASE p = "C05" -> OkC05(m, o)
       [] p = "C06" -> OkC06(m, o)
       [] p = "C07" -> OkC07(m, o)
+      [] p = "C08" -> OkC08(m, o)
       [] p = "C10" -> OkC10(m, o)
       [] p = "C11" -> OkC11(m, o)
       [] p = "C12" -> OkC12(m, o)
+      [] p = "C13" -> OkC13(m, o)
       [] p = "C15" -> OkC15(m, o)
       [] p = "C17" -> OkC17(m, o)
 Failed(m, o) == {p \in Props : ~Holds(p, m, o)}
